@@ -8,5 +8,6 @@ import Props.C15
 #print axioms UseM.close_sound
 #print axioms UseM.close_closed
 #print axioms UseM.close_complete
+#print axioms UseM.close_complete_bounded
 #print axioms UseM.duplicate_names_rejected
 #print axioms UseM.c15_pinned_refuted
